@@ -176,14 +176,8 @@ fn huge_image(rng: &mut Rng, k: u64) -> (Vec<u8>, J) {
 /// Extra case k of the C08 check (sweep cases first, then huge-table images).
 pub fn build_extra_scenario(prop: &str, seed: u64, k: u64, tier: &str, _samples: &Samples) -> Scenario {
     let thorough = tier == "thorough";
-    // C07 has only the huge-table cases; C08 has the field sweep first
-    let n_sweep = if prop != "C08" {
-        0
-    } else if thorough {
-        sweep_cases()
-    } else {
-        sweep_cases() / 8
-    };
+    // field sweep first, then the huge-table images (both for C07 and C08)
+    let n_sweep = sweep_cases();
     let run_seed = mix(mix(seed, prop_id("C08") ^ 0x5eed), k);
     let mut io = Rng::sub(run_seed, 3);
     let (bytes, recipe, mode) = if k >= n_sweep {
@@ -192,7 +186,7 @@ pub fn build_extra_scenario(prop: &str, seed: u64, k: u64, tier: &str, _samples:
         (b, r, "huge-tables")
     } else {
         // quick tier walks the case space with a stride so that all fields are met
-        let case = if thorough { k } else { (k * 8 + (seed % 8)) % sweep_cases() };
+        let case = k;
         let per = fields_per_image() * VALUES;
         let img_idx = case / per;
         let f_idx = (case % per) / VALUES;
